@@ -17,6 +17,7 @@
 #include "rkcommon/math/vec.h"
 #include "rkcommon/utility/Any.h"
 #include "rkcommon/utility/Optional.h"
+#include "rkcommon/utility/getEnvVar.h"
 
 using rkcommon::utility::Any;
 using rkcommon::utility::Optional;
@@ -355,6 +356,45 @@ template <typename X> static size_t place_offset()
 template <typename X> static void *addr(int i) { return g_slots[i].buf + place_offset<X>(); }
 template <typename X> static Optional<X> &at(int i) { return *reinterpret_cast<Optional<X> *>(addr<X>(i)); }
 
+// ------------------------------------------------------------------ getEnvVar.h
+// es:name:sid sets C09_VAR_<name> to the C string with id sid, rendered for the family's kind; eu:name unsets it;
+// gv:slot:kind:name constructs the wrapper in the slot from getEnvVar<K>(name).  id 0 is the empty string.
+static std::string env_name(long n) { return "C09_VAR_" + std::to_string(n); }
+template <typename F> struct EnvGet {
+  static const int kind = -1;
+  static std::string render(long) { return std::string(); }
+  static int go(int, const std::string &) { return 0; }
+};
+template <> struct EnvGet<FamInt> {
+  static const int kind = 0;
+  static std::string render(long sid)      // atoi(render(sid)) == 4 * sid, through blanks, a sign, trailing junk
+  {
+    if (sid == 0) return std::string();
+    std::string d = std::to_string(4 * sid);
+    switch (sid % 4) { case 0: return d; case 1: return "  \t" + d + " "; case 2: return d + "abc.5"; default: return "+" + d; }
+  }
+  static int go(int i, const std::string &n) { new (addr<int>(i)) Optional<int>(rkcommon::utility::getEnvVar<int>(n)); return 1; }
+};
+template <> struct EnvGet<FamStr> {
+  static const int kind = 2;
+  static std::string render(long sid) { return str_enc(sid); }     // "" for id 0, otherwise 30+ characters
+  static int go(int i, const std::string &n)
+  {
+    new (addr<std::string>(i)) Optional<std::string>(rkcommon::utility::getEnvVar<std::string>(n));
+    return 1;
+  }
+};
+template <> struct EnvGet<FamDbl> {
+  static const int kind = 1;
+  static std::string render(long sid)      // (float)atof(render(sid)) has code 4 * sid; id 1 is "-0.0" (code 1), id 0 is ""
+  {
+    if (sid == 0) return std::string();
+    if (sid == 1) return "-0.0";
+    return sid % 2 ? std::to_string(sid) + ".0" : " " + std::to_string(sid) + "e0x";
+  }
+  static int go(int i, const std::string &n) { new (addr<float>(i)) Optional<float>(rkcommon::utility::getEnvVar<float>(n)); return 2; }
+};
+
 template <typename A, typename B> static bool docmp(const std::string &c, const Optional<A> &a, const Optional<B> &b)
 {
   if (c == "eq") return a == b;
@@ -411,7 +451,20 @@ template <typename F> struct Run {
     std::ostringstream o;
     int i = f.size() > 1 ? std::stoi(f[1]) : 0;
     auto num = [&](size_t k) { return std::stol(f[k]); };
+    if (c == "es" || c == "eu") {
+      if (EnvGet<F>::kind < 0) return "badop";
+      if (c == "es") setenv(env_name(i).c_str(), EnvGet<F>::render(num(2)).c_str(), 1);
+      else unsetenv(env_name(i).c_str());
+      return "ok";
+    }
     int ki = g_slots[i].kind;
+    if (c == "gv") {
+      if (EnvGet<F>::kind < 0 || num(2) != EnvGet<F>::kind) return "badop";
+      if (ki != 0) return "ill";
+      scrub(i);
+      g_slots[i].kind = EnvGet<F>::go(i, env_name(num(3)));
+      return "ok";
+    }
     if (c == "cd" || c == "cv" || c == "mk") {
       bool u = num(2) == 1;
       if (ki != 0) return "ill";
@@ -530,7 +583,8 @@ template <typename F> struct Run {
 
   static std::string history(const std::vector<std::string> &ops)
   {
-    for (int i = 0; i < NSLOTS; ++i) { g_slots[i].kind = 0; scrub(i); }
+    for (int i = 0; i < NSLOTS; ++i) { g_slots[i].kind = 0; scrub(i); unsetenv(env_name(i).c_str()); }
+    unsetenv(env_name(7).c_str());          // the name that is never set
     G = Registry();
     std::string line;
     for (auto &tok : ops) {
